@@ -5,7 +5,7 @@
 (*   payload = DEK-AEAD.Encrypt(plaintext, associated data), RAW (no output prefix)  *)
 (* The DEK travels as the serialized protobuf key message of its key type; the part  *)
 (* of the protobuf wire format that those messages use (varint and length-delimited  *)
-(* fields) is specified here.  0 < |encDEK| <= 4096.                                 *)
+(* fields) is specified here.  0 < |encDEK|; Encrypt emits at most 4096.             *)
 EXTENDS AEADWire
 
 EnvelopeMaxEncDEK == 4096
@@ -74,35 +74,60 @@ DEKConfig(kt, dek) ==
                          IN IF ~PBOk(cp) \/ ~PBOk(mp) THEN [kt |-> "INVALID"]
                             ELSE RawCfg(kt, PBBytes(ctr, 3), PBBytes(mac, 3), PBInt(cp, 1), PBInt(mp, 2), PBHash(PBInt(mp, 1)))
 
+\* ------------------------------------------------------------------ the remote (key-encryption) AEAD
+\* The remote AEAD is outside Tink; the envelope only requires it to be an AEAD.  Two remotes are modelled:
+\*   kind "tink"   : an in-process Tink keyset AEAD over rm.keys (first = primary)
+\*   kind "padded" : the harness's size-controlled remote: be16(|inner|) || inner || 0^(padTo - 2 - |inner|) with
+\*                   inner = the Tink keyset AEAD's ciphertext; it opens only strings of exactly padTo bytes
+\*                   with all-zero padding (so every modification is refused, like a real AEAD).
+\* rm = [keys, kind, padTo]
+RemoteSeal(rm, nonce, dek) ==
+  LET inner == KeysetSeal(rm.keys, 1, nonce, dek, <<>>)
+  IN IF rm.kind = "padded" THEN BE(Len(inner), 2) \o inner \o Zeros(rm.padTo - 2 - Len(inner)) ELSE inner
+
+RemoteOpen(rm, c) ==
+  IF rm.kind = "padded"
+  THEN IF Len(c) # rm.padTo \/ Len(c) < 2 THEN EnvFail
+       ELSE LET n == c[1] * 256 + c[2]
+            IN IF 2 + n > Len(c) \/ Drop(c, 2 + n) # Zeros(Len(c) - 2 - n) THEN EnvFail
+               ELSE KeysetOpen(rm.keys, Slice(c, 2, n), <<>>)
+  ELSE KeysetOpen(rm.keys, c, <<>>)
+
 \* ------------------------------------------------------------------ framing
+\* The wire format is be32(|encDEK|) || encDEK || payload with 0 < |encDEK| <= |ct| - 4.  Encrypt itself refuses
+\* to emit an encrypted DEK longer than EnvelopeMaxEncDEK, so Decrypt may refuse those -- and nothing else:
+\* everything Encrypt emits (|encDEK| = EnvelopeMaxEncDEK included) must decrypt.
 EnvelopeFrame(encDEK, payload) == BE(Len(encDEK), 4) \o encDEK \o payload
+EnvelopeNoBound == 65535
 
-\* [ok, encDEK, payload]
-EnvelopeParse(ct) ==
+\* [ok, encDEK, payload]; max = largest encrypted-DEK length accepted
+EnvelopeParseMax(ct, max) ==
   IF Len(ct) <= 4 THEN [ok |-> FALSE]
-  ELSE IF ct[1] # 0 \/ ct[2] # 0 THEN [ok |-> FALSE]          \* >= 65536 > 4096 (also keeps the value a TLC integer)
+  ELSE IF ct[1] # 0 \/ ct[2] # 0 THEN [ok |-> FALSE]          \* >= 65536 (also keeps the value a TLC integer)
   ELSE LET n == ct[3] * 256 + ct[4]
-       IN IF n = 0 \/ n > EnvelopeMaxEncDEK \/ n > Len(ct) - 4 THEN [ok |-> FALSE]
+       IN IF n = 0 \/ n > max \/ n > Len(ct) - 4 THEN [ok |-> FALSE]
           ELSE [ok |-> TRUE, encDEK |-> Slice(ct, 4, n), payload |-> Drop(ct, 4 + n)]
+EnvelopeParse(ct) == EnvelopeParseMax(ct, EnvelopeMaxEncDEK)
 
-\* kek: sequence of key configurations of the remote (here: an in-process Tink keyset AEAD), first = primary
-EnvelopeSeal(kek, kekNonce, dekKt, dek, dekNonce, pt, ad) ==
-  EnvelopeFrame(KeysetSeal(kek, 1, kekNonce, dek, <<>>), AEADSeal(DEKConfig(dekKt, dek), dekNonce, pt, ad))
+EnvelopeSeal(rm, kekNonce, dekKt, dek, dekNonce, pt, ad) ==
+  EnvelopeFrame(RemoteSeal(rm, kekNonce, dek), AEADSeal(DEKConfig(dekKt, dek), dekNonce, pt, ad))
 
-EnvelopeOpen(kek, dekKt, ct, ad) ==
-  LET f == EnvelopeParse(ct)
+EnvelopeOpenMax(rm, dekKt, ct, ad, max) ==
+  LET f == EnvelopeParseMax(ct, max)
   IN IF ~f.ok THEN EnvFail
-     ELSE LET d == KeysetOpen(kek, f.encDEK, <<>>)
+     ELSE LET d == RemoteOpen(rm, f.encDEK)
           IN IF ~d[1] THEN EnvFail
              ELSE LET c == DEKConfig(dekKt, d[2])
                   IN IF c.kt = "INVALID" THEN EnvFail ELSE AEADOpen(c, f.payload, ad)
+EnvelopeOpen(rm, dekKt, ct, ad) == EnvelopeOpenMax(rm, dekKt, ct, ad, EnvelopeMaxEncDEK)
 
 \* A KmsEnvelopeAeadKey inside a keyset (aead.New): output-prefix of that keyset key || envelope.
 \* prefix is the 5-byte output prefix of the envelope key, or empty (RAW, the template default).
-EnvelopeKeySeal(prefix, kek, kekNonce, dekKt, dek, dekNonce, pt, ad) ==
-  prefix \o EnvelopeSeal(kek, kekNonce, dekKt, dek, dekNonce, pt, ad)
-EnvelopeKeyOpen(prefix, kek, dekKt, ct, ad) ==
-  IF ~IsPrefixOf(prefix, ct) THEN EnvFail ELSE EnvelopeOpen(kek, dekKt, Drop(ct, Len(prefix)), ad)
+EnvelopeKeySeal(prefix, rm, kekNonce, dekKt, dek, dekNonce, pt, ad) ==
+  prefix \o EnvelopeSeal(rm, kekNonce, dekKt, dek, dekNonce, pt, ad)
+EnvelopeKeyOpenMax(prefix, rm, dekKt, ct, ad, max) ==
+  IF ~IsPrefixOf(prefix, ct) THEN EnvFail ELSE EnvelopeOpenMax(rm, dekKt, Drop(ct, Len(prefix)), ad, max)
+EnvelopeKeyOpen(prefix, rm, dekKt, ct, ad) == EnvelopeKeyOpenMax(prefix, rm, dekKt, ct, ad, EnvelopeMaxEncDEK)
 
 \* length of an envelope ciphertext given the lengths of its parts
 EnvelopeLen(encDEKLen, dekCfg, ptLen) == 4 + encDEKLen + AEADCiphertextLen(dekCfg, ptLen)
